@@ -230,6 +230,19 @@ def eom_residual(M, B, K, F, sol, dyn, rf, tag, msgs, tolr):
             msgs.append("%s: residual-flexibility rows have non-zero velocity/acceleration" % tag)
 
 
+
+def reuse_check(ts, F, kw, sol, tag, msgs):
+    """a solver instance is reusable: after an intermediate, different solve the original solve is reproduced bit for bit"""
+    try:
+        ts.tsolve(F[:, ::-1].copy() * 0.5, d0=None if kw.get("d0") is None else kw["d0"] * -2.0, v0=kw.get("v0"), static_ic=False)
+        again = ts.tsolve(F.copy(), **kw)
+    except Exception as e:  # noqa
+        msgs.append("%s: re-using the solver instance raised %r" % (tag, e))
+        return
+    if not all(np.array_equal(getattr(again, nm), getattr(sol, nm)) for nm in "dva"):
+        msgs.append("%s: solving again on the same instance (after a different solve) gives a different answer" % tag)
+
+
 # ------------------------------------------------------------------ one uncoupled (modal) system
 def run_modal(modes, order, fname, icname, tier, res, variants="all"):
     """modes: list of mode dicts (the system is diagonal).  Returns violation messages."""
@@ -268,6 +281,7 @@ def run_modal(modes, order, fname, icname, tier, res, variants="all"):
             msgs.append("%s: raised %r" % (tag, e))
             return None
         compare(sol, ref, tols, sc3, tag, msgs, res, names=[md["name"] for md in modes] if CALIB else None)
+        reuse_check(ts, F, kw, sol, tag, msgs)
         if resid:
             eom_residual(M, B, K, F, sol, dyn, rf, tag, msgs, 1e3 * EPS * max(1.0, max([md.get("zeta", 0) for md in modes])))
         sols[tag] = sol
@@ -389,11 +403,13 @@ def run_coupled(name, modes, ti, nonprop, order, fname, icname, tier, res):
 
     def attempt(tag, make, tols):
         try:
-            sol = make().tsolve(F.copy(), **kw)
+            ts_ = make()
+            sol = ts_.tsolve(F.copy(), **kw)
         except Exception as e:  # noqa
             msgs.append("%s: raised %r" % (tag, e))
             return
         compare(sol, ref, tols, sc3, tag, msgs, res)
+        reuse_check(ts_, F, kw, sol, tag, msgs)
         if CALIB:
             res.err("rc/%s/%s/whmin%g" % (tag, "+".join(md["name"].split("@")[0] for md in modes), whmin), res.maxerr["ratio_err_over_tol/" + tag.split("/")[0]][0])
         eom_residual(M, B, K, F, sol, list(range(n)), [], tag, msgs, 1e4 * EPS * max(1.0, zmax) * np.linalg.cond(M))
@@ -504,11 +520,13 @@ def run_mc(sysdef, order, fname, icname, tier, res):
 
     def attempt(tag, make, tols):
         try:
-            sol = make().tsolve(F.copy(), **kw)
+            ts_ = make()
+            sol = ts_.tsolve(F.copy(), **kw)
         except Exception as e:  # noqa
             msgs.append("%s: raised %r" % (tag, e))
             return
         compare(sol, ref, tols, tuple(sc3), tag, msgs, res)
+        reuse_check(ts_, F, kw, sol, tag, msgs)
         eom_residual(M, B, K, F, sol, dyn, rf, tag, msgs, 1e4 * EPS * max(1.0, z2) * np.linalg.cond(M[np.ix_(dyn, dyn)]))
 
     attempt("SolveExp2/mc", lambda: ode.SolveExp2(M, B, K, H, rf=rfarg, order=order), te)
